@@ -24,4 +24,5 @@ with open("/verif/seeded/README.md", "w") as f:
     f.write("| change | property | demo confirmed | suite | current verdict (quick) | verdict history | what the change is | first line reported |\n|---|---|---|---|---|---|---|---|\n")
     for r in rows:
         f.write("| " + " | ".join(str(x).replace("|", "/") for x in r) + " |\n")
-print("%d seeded changes; caught now: %d" % (len(rows), sum(1 for r in rows if r[4] == "CAUGHT")))
+print("%d seeded changes; caught now: %d; subsumed by a fix: %d" % (len(rows), sum(1 for r in rows if r[4] == "CAUGHT"),
+                                                                    sum(1 for r in rows if r[4].startswith("SUBSUMED"))))
